@@ -5,6 +5,7 @@ import Dmn.Lemmas.LexerOperator
 import Dmn.Lemmas.LexerNextChar
 import Dmn.Gen.NameChars
 import Dmn.Model.NameGrammar
+import Dmn.Lemmas.LexerKeyword
 
 /-!
 # C10 — names with spaces and symbols resolve to their bound value (longest match)
@@ -630,5 +631,243 @@ example : exDeclared.input = renderName [[80, 114, 111, 102, 105, 116], [47], [7
     renderOk false [[80, 114, 111, 102, 105, 116], [47], [76, 111, 115, 115]] [[], [32], []] = true ∧
     nameNew [[80, 114, 111, 102, 105, 116], [47], [76, 111, 115, 115]] = [80, 114, 111, 102, 105, 116, 47, 76, 111, 115, 115] ∧
     (consumeName exDeclared).isPanic = false := by decide
+
+/-! ## Keywords before names: the arms of `read_next_token`, as they stand in lexer.rs now
+
+`translate/keywords.py` regenerates `Dmn.Gen.Keywords.arms` from the `match` of
+`Lexer::read_next_token` on every run: per arm the literal characters its pattern begins with, the
+conditions of its guard (a flag of the lexer, a cell of the look-ahead buffer being a blank / a
+member of a `matches!` set / a digit / a name start character, `is_next_character`), and what a
+simple body does.  `Dmn/Model/LexerArms.lean` says what such a table means.  The theorems below lift
+`bound_name_whole_any_flags` from `consume_name` to `next_token`.  What the code guarantees: the
+keyword arms are tried BEFORE the name arm and do not consult the scope, but each of them fires only
+when its word is the whole first word at the cursor (ended by a blank, a comment, the end of input,
+or — for `true false null not` / `function list context range` — by a separator / by `(` or `<` after
+optional white space).  So a name is safe from them exactly when no arm whose word is the name's
+FIRST word fires; later words may be anything (`x and y`, `rate of return` resolve when bound).
+Finding F63-keyword-name delimits it: a bound name `list`, `range`, `context` followed by `<` (or
+`function` followed by `(`) is the keyword. -/
+
+open Dmn.Gen.Keywords
+
+/-- `read_next_token_is_arms` (the tie to the code): for every lexer state, the first arm of the
+regenerated table that fires after the gap — and what its body does, as far as the table describes
+it (every body except numbers, strings and the undefined-character arm) — is what the hand-written
+model `readNextToken` answers.  An arm added, dropped, moved, or given another word, follower,
+guard, token or cursor advance in lexer.rs breaks this obligation. -/
+theorem read_next_token_is_arms (l : Lx) (a : Arm) (r : Out (Token × Lx))
+    (ha : firstArm (afterGap l) (readBuf l.input (afterGap l).pos) arms = some a)
+    (hr : runBody (afterGap l) a.body = some r) : readNextToken l = r :=
+  readNextToken_is_arms l a r ha hr
+
+-- non-vacuity: `some x` fires the arm of `some`; `x` fires the name arm
+example : firstArm (afterGap { exLx4 with input := [115, 111, 109, 101, 32, 120] })
+      (readBuf [115, 111, 109, 101, 32, 120] 0) arms =
+      some ⟨[115, 111, 109, 101], [.cellIn 4 [32]], .token Dmn.Gen.Lalr.TokenType_Some none 4 []⟩ ∧
+    (firstArm (afterGap exLx4) (readBuf exLx4.input 0) arms).map (·.body) = some .name := by decide
+
+/-- `keyword_arms_guard_their_word` (facts about the regenerated table, decided): every arm tried
+before the name arm either begins with a character that starts no name (or demands a digit), or is a
+keyword arm — its word consists of name part characters, fits the buffer, and the arm has a
+condition on what follows the word DIRECTLY that no name part character satisfies; the arm after
+them is the name arm, guarded by `is_name_start_char` only; every token an arm hands out is a
+`TokenType` of the regenerated enum. -/
+theorem keyword_arms_guard_their_word :
+    armsBeforeName.all (fun a => (isKwArm a && kwArmOk a) || nonNameArm a) = true ∧
+    armsFromName.head? = some ⟨[], [.cellNameStart 0], .name⟩ ∧
+    arms.all (fun a => match a.body with
+      | .token tt _ _ _ => (TT.ofCode? tt).isSome
+      | _ => true) = true := by decide
+
+/-- `keyword_needs_whole_word`: an arm whose pattern begins with a name start character (a keyword
+or literal arm) fires only when its word is the whole first word at the cursor: the text after the
+gap begins with the word, and what follows the word is the end of input, white space, or a
+character that is no name part character (`iffy`, `order`, `nullable`, `listing<`, `trueish` are
+names). -/
+theorem keyword_needs_whole_word (l : Lx) (a : Arm)
+    (ha : firstArm (afterGap l) (readBuf l.input (afterGap l).pos) arms = some a)
+    (hk : isKwArm a = true) (hbefore : a.body ≠ .name) :
+    startsWith (l.input.drop (afterGap l).pos) a.word = true ∧
+    wordEnds l.input ((afterGap l).pos + a.word.length) := by
+  obtain ⟨hmem, hf⟩ := firstArm_mem ha
+  have hok : kwArmOk a = true := by
+    rw [arms_split] at hmem
+    rcases List.mem_append.mp hmem with h | h
+    · have := List.all_eq_true.mp keyword_arms_guard_their_word.1 a h
+      simp only [Bool.or_eq_true, Bool.and_eq_true] at this
+      rcases this with h1 | h1
+      · exact h1.2
+      · exfalso
+        unfold isKwArm at hk
+        unfold nonNameArm at h1
+        split at hk
+        · rename_i c tl heq
+          rw [heq] at h1
+          simp [hk] at h1
+        · cases hk
+    · -- the name arm and the arms after it: their words are empty
+      exfalso
+      have hall : armsFromName.all (fun a => a.body == .name || !isKwArm a) = true := by decide
+      have := List.all_eq_true.mp hall a h
+      simp only [Bool.or_eq_true, beq_iff_eq, hk] at this
+      rcases this with h1 | h1
+      · exact hbefore h1
+      · cases h1
+  exact fires_word (afterGap l) a hok hf
+
+-- non-vacuity: at `if x` the arm of `if` fires, its word is the first word
+example : (firstArm (afterGap { exLx4 with input := [105, 102, 32, 120] }) (readBuf [105, 102, 32, 120] 0) arms).map
+    (fun a => (a.word, isKwArm a)) = some ([105, 102], true) := by decide
+
+/-- `keyword_before_name` (keywords are recognised before names, whatever the scope binds): when an
+arm with a token body is the first to fire, `read_next_token` hands out that token and moves the
+cursor as the arm says — for EVERY set of scope keys, also one that binds the very word. -/
+theorem keyword_before_name (l : Lx) (a : Arm) (tt : Int) (p : Option Bool) (n : Nat) (cl : List Flag)
+    (ha : firstArm (afterGap l) (readBuf l.input (afterGap l).pos) arms = some a)
+    (hb : a.body = .token tt p n cl) (ks : List (List Nat)) :
+    ∃ t l2, TT.ofCode? tt = some t ∧ readNextToken l = .ok (⟨t, payloadOf p⟩, l2) ∧
+      readNextToken { l with keys := ks } =
+        .ok (⟨t, payloadOf p⟩, { l2 with keys := ks }) ∧
+      l2.pos = (afterGap l).pos + n := by
+  obtain ⟨hmem, _⟩ := firstArm_mem ha
+  have hsome := List.all_eq_true.mp keyword_arms_guard_their_word.2.2 a hmem
+  rw [hb] at hsome
+  simp only at hsome
+  obtain ⟨t, ht⟩ := Option.isSome_iff_exists.mp hsome
+  refine ⟨t, cl.foldl clearFlag { afterGap l with pos := (afterGap l).pos + n }, ht, ?_, ?_, ?_⟩
+  · apply readNextToken_is_arms l a _ ha
+    rw [hb]; simp only [runBody, ht]; try rfl
+  · have ha' : firstArm (afterGap { l with keys := ks }) (readBuf l.input (afterGap { l with keys := ks }).pos) arms
+        = some a := by
+      have := firstArm_keys (afterGap l) (readBuf l.input (afterGap l).pos) ks arms
+      rw [ha] at this
+      exact this
+    have := readNextToken_is_arms { l with keys := ks } a
+      (.ok (⟨t, payloadOf p⟩,
+        cl.foldl clearFlag { afterGap { l with keys := ks } with pos := (afterGap { l with keys := ks }).pos + n }))
+      ha' (by rw [hb]; simp only [runBody, ht]; try rfl)
+    have hfold : ∀ (cl : List Flag) (x : Lx), cl.foldl clearFlag { x with keys := ks } =
+        { cl.foldl clearFlag x with keys := ks } := by
+      intro cl
+      induction cl with
+      | nil => intro x; rfl
+      | cons f cl ih => intro x; simp only [List.foldl_cons]; rw [← ih]; cases f <;> rfl
+    rw [this, ← hfold cl { afterGap l with pos := (afterGap l).pos + n }]
+    rfl
+  · have hpos : ∀ (cl : List Flag) (x : Lx), (cl.foldl clearFlag x).pos = x.pos := by
+      intro cl
+      induction cl with
+      | nil => intro x; rfl
+      | cons f cl ih => intro x; simp only [List.foldl_cons]; rw [ih]; cases f <;> rfl
+    rw [hpos]
+
+/-- `keyword_named_bound_name_counterexample` (finding F63-keyword-name): the scope binds `list`; at
+`list<` the lexer hands out the keyword, not the bound name — `keyword_before_name` at a witness.
+Followed by anything but `<` the same bound name is a name (`list + 1`). -/
+theorem keyword_named_bound_name_counterexample :
+    nextToken { exLx4 with input := [108, 105, 115, 116, 60, 49], keys := [[108, 105, 115, 116]] } =
+      .ok (tk .list, { exLx4 with input := [108, 105, 115, 116, 60, 49], keys := [[108, 105, 115, 116]], pos := 4 }) ∧
+    nextToken { exLx4 with input := [108, 105, 115, 116, 32, 43, 32, 49], keys := [[108, 105, 115, 116]] } =
+      .ok (⟨.name, .name [108, 105, 115, 116]⟩,
+        { exLx4 with input := [108, 105, 115, 116, 32, 43, 32, 49], keys := [[108, 105, 115, 116]], pos := 4 }) := by
+  decide
+
+/-- `bound_name_is_next_token` (the lift of `bound_name_whole_any_flags` to `next_token`): a bound
+name — any arrangement of words and additional symbols that starts with a word beginning with a name
+start character — written with any legal spacing at the cursor is handed out by `next_token` as ONE
+`Name` token carrying its `Name::new` text, the cursor just after it, for every setting of the
+flags, PROVIDED no arm of `read_next_token` whose word is the name's first word fires there
+(`hkw`; vacuous when the first word is not the word of an arm: `bound_nonkeyword_name_is_next_token`)
+— outside finding F63-keyword-name this is the full statement: later words of the name may be
+keywords.  After the token `type_name` and `unary_tests` are cleared, the other flags, the input
+and the scope are as before. -/
+theorem bound_name_is_next_token (l : Lx) (pre rest p0 : List Nat) (ps sps : List (List Nat))
+    (hinp : l.input = pre ++ (renderName (p0 :: ps) ([] :: sps) ++ rest)) (hpos : l.pos = pre.length)
+    (hstart : l.start = none)
+    (hok : renderOk false (p0 :: ps) ([] :: sps) = true) (hw : isWordPart p0 = true)
+    (hfirst : ∀ c, p0.head? = some c → isNameStartChar c = true)
+    (hrest : notExtending rest)
+    (hnc : noCommentStart (renderName (p0 :: ps) ([] :: sps) ++ rest.take 1) = true)
+    (hamb : NoAmbiguousBlank l.input)
+    (hin : l.tillIn = true → ∀ st, collectParts l.input l.pos = .ok st →
+      (positionOfIn st.parts).filter (fun i => 0 < i) = none ∨ positionOfIn st.parts = some (ps.length + 1))
+    (hbound : l.keys.contains (nameNew (p0 :: ps)) = true)
+    (hlonger : ∀ st, collectParts l.input l.pos = .ok st →
+      ∀ j, ps.length + 1 < j → j ≤ st.parts.length → isKeyAt l.keys st.parts j = false)
+    (hkw : ∀ a ∈ arms, a.word = p0 → armFires l (readBuf l.input l.pos) a = false) :
+    ∃ l', nextToken l = .ok (⟨.name, .name (nameNew (p0 :: ps))⟩, l') ∧
+      l'.pos = pre.length + (renderName (p0 :: ps) ([] :: sps)).length ∧
+      l'.input = l.input ∧ l'.keys = l.keys ∧ l'.start = none ∧
+      l'.unaryTests = false ∧ l'.between = l.between ∧ l'.typeName = false := by
+  obtain ⟨l1, hcn, h1, h2, h3, h4, _, h6, _⟩ :=
+    bound_name_whole_any_flags l pre rest p0 ps sps hinp hpos hok hw hrest hnc hamb hin hbound hlonger
+  have hne : p0 ≠ [] := by intro he; subst he; simp [isWordPart] at hw
+  obtain ⟨c0, w0, hp0⟩ : ∃ c0 w0, p0 = c0 :: w0 := by
+    cases p0 with
+    | nil => exact absurd rfl hne
+    | cons c w => exact ⟨c, w, rfl⟩
+  have hc0 : isNameStartChar c0 = true := hfirst c0 (by rw [hp0]; rfl)
+  have hd : l.input.drop l.pos = p0 ++ (renderName ps sps ++ rest) := by
+    rw [hinp, hpos]
+    simp [renderName, List.append_assoc]
+  have hgood : p0.all (fun c => isNamePartChar c && !isWhitespace c) = true := by
+    apply List.all_eq_true.mpr
+    intro c hc
+    have hpart : isNamePartChar c = true := by
+      simp only [isWordPart, Bool.and_eq_true] at hw
+      exact List.all_eq_true.mp hw.2 c hc
+    have hmem : c ∈ l.input := by
+      rw [hinp]
+      simp only [renderName, List.nil_append, List.mem_append]
+      exact Or.inr (Or.inl (Or.inl hc))
+    have := hamb c hmem
+    cases hws : isWhitespace c with
+    | false => simp [hpart]
+    | true => exact absurd ⟨hws, hpart⟩ this
+  have hok' : renderOk true ps sps = true := by
+    simp only [renderOk, hw, Bool.and_eq_true] at hok
+    exact hok.2
+  have hrest' : ∀ c, (renderName ps sps ++ rest).head? = some c → isNamePartChar c = false :=
+    head_not_part ps sps rest hok' hrest
+  have hrd := readNextToken_name_arm l p0 (renderName ps sps ++ rest) c0 w0
+    keyword_arms_guard_their_word.1 keyword_arms_guard_their_word.2.1 hd hp0 hc0 hgood hrest' hkw
+  refine ⟨{ l1 with typeName := false, unaryTests := false }, ?_, h1, h2, h3, by simp [h4, hstart], rfl, h6, rfl⟩
+  unfold nextToken
+  rw [hstart]
+  simp only [hrd, nameArm, hcn]
+
+/-- `bound_nonkeyword_name_is_next_token` (the property's quantifier): when the FIRST word of the
+bound name is not the word of any arm of `read_next_token` — the keywords and literals the lexer
+knows, regenerated — the name is the next token. -/
+theorem bound_nonkeyword_name_is_next_token (l : Lx) (pre rest p0 : List Nat) (ps sps : List (List Nat))
+    (hinp : l.input = pre ++ (renderName (p0 :: ps) ([] :: sps) ++ rest)) (hpos : l.pos = pre.length)
+    (hstart : l.start = none)
+    (hok : renderOk false (p0 :: ps) ([] :: sps) = true) (hw : isWordPart p0 = true)
+    (hfirst : ∀ c, p0.head? = some c → isNameStartChar c = true)
+    (hrest : notExtending rest)
+    (hnc : noCommentStart (renderName (p0 :: ps) ([] :: sps) ++ rest.take 1) = true)
+    (hamb : NoAmbiguousBlank l.input)
+    (hin : l.tillIn = true → ∀ st, collectParts l.input l.pos = .ok st →
+      (positionOfIn st.parts).filter (fun i => 0 < i) = none ∨ positionOfIn st.parts = some (ps.length + 1))
+    (hbound : l.keys.contains (nameNew (p0 :: ps)) = true)
+    (hlonger : ∀ st, collectParts l.input l.pos = .ok st →
+      ∀ j, ps.length + 1 < j → j ≤ st.parts.length → isKeyAt l.keys st.parts j = false)
+    (hkw : p0 ∉ arms.map (·.word)) :
+    ∃ l', nextToken l = .ok (⟨.name, .name (nameNew (p0 :: ps))⟩, l') ∧
+      l'.pos = pre.length + (renderName (p0 :: ps) ([] :: sps)).length ∧
+      l'.input = l.input ∧ l'.keys = l.keys ∧ l'.start = none ∧
+      l'.unaryTests = false ∧ l'.between = l.between ∧ l'.typeName = false :=
+  bound_name_is_next_token l pre rest p0 ps sps hinp hpos hstart hok hw hfirst hrest hnc hamb hin hbound hlonger
+    (fun a ha hwa => absurd (hwa ▸ List.mem_map_of_mem (f := (·.word)) ha) hkw)
+
+-- non-vacuity: scope {x and y}, input `x and y + 1` with every flag set: one name token although `and` is a keyword;
+-- `x` is not the word of an arm
+def exLx7 : Lx :=
+  { input := [120, 32, 97, 110, 100, 32, 121, 32, 43, 32, 49], pos := 0, start := none, unaryTests := true,
+    between := true, typeName := true, tillIn := false, keys := [[120, 32, 97, 110, 100, 32, 121]] }
+example : renderOk false [[120], [97, 110, 100], [121]] [[], [32], [32]] = true ∧
+    [120] ∉ arms.map (·.word) ∧
+    nextToken exLx7 = .ok (⟨.name, .name [120, 32, 97, 110, 100, 32, 121]⟩,
+      { exLx7 with pos := 7, typeName := false, unaryTests := false }) := by decide
 
 end Dmn.Lexer
